@@ -342,4 +342,12 @@ def variants():
                           N("L1", "ILoad", "S1"))
     c["hole/mux"] = S(N("S1", "Source", pol="nonneg"), N("X", "ILoad", "S1", dummy=True, only=()), N("S2", "Source"),
                       N("M", "PMux", ["S1", "S2"], rs_list=True), N("L", "PLoad", "M"))
+    # index RE-USE: the dummy below S1 is deleted before C is added under the LATER source S2, so C carries a lower node index than its
+    # own source; the mux input G sits two levels below S2
+    c["reuse/mux-deep-input"] = S(N("S1", "Source", pol="nonneg"), N("X", "RLoss", "S1", dummy=True, only=()), N("S2", "Source"),
+                                  N("C", "Converter", "S2", after_deleting=["X"]), N("G", "LinReg", "C"),
+                                  N("M", "PMux", ["G", "S1"], rs_list=True), N("L", "PLoad", "M"))
+    c["reuse/mux-deep-input-2nd"] = S(N("S1", "Source", pol="nonneg"), N("X", "RLoss", "S1", dummy=True, only=()), N("S2", "Source"),
+                                      N("C", "Converter", "S2", after_deleting=["X"]), N("G", "LinReg", "C"),
+                                      N("M", "PMux", ["S1", "G"], rs_list=True), N("L", "PLoad", "M"))
     return c
